@@ -952,7 +952,7 @@ class CBool:
     __slots__ = ("v",)
 
     def __init__(self, v):
-        self.v = v
+        self.v = None if v is None else bool(v)  # numpy booleans are normalised (identity tests below)
 
     def __bool__(self):
         return self.v is not False
